@@ -92,7 +92,29 @@ func (x *c03ctx) checkDestCaps(d ng.Dest) {
 
 func runC03(cfg *vc.Config, rep *vc.Report) {
 	cfg.Cases(40000, 3000000, func(i int, r *vc.Rand) {
-		c := ng.Generate(r, ng.SingleCfg())
+		scfg := ng.SingleCfg()
+		if r.Chance(1, 12) { // one static rule broken (e.g. portions that do not add up): the send must be refused, not run short
+			scfg.Break = true
+			scfg.Accounts = ng.DefaultAccounts
+			scfg.Disjoint = false
+		}
+		c := ng.Generate(r, scfg)
+		if c.Broken != "" {
+			text := c.Prog.String()
+			rep.Current(map[string]any{"index": i, "script": text, "vars": c.World.Vars, "rule_broken": c.Broken})
+			rep.Eval()
+			rep.Inc("rule_breaking")
+			real := runReal(text, c.World, freshCompile)
+			if real.Class == "panic" {
+				rep.Violate(real.PanicSig, real.Err, i, dump(i, c, text, nil, &real))
+			} else if real.Class == ng.ClsOK {
+				ref := ng.Eval(c.Prog, c.World)
+				if ref.Class == ng.ClsRefused {
+					rep.Violate("accepted-but-must-be-refused:rule="+c.Broken, ref.Why, i, dump(i, c, text, &ref, &real))
+				}
+			}
+			return
+		}
 		// follow-up (one case in three): a second statement sends *everything* one of the first send's source accounts still
 		// holds. "[ASSET *] moves exactly everything its sources can provide" then also says that what the first send took,
 		// kept and gave back is what the machine remembers.
